@@ -296,12 +296,20 @@ def check_fracs(fr):
 def h_exact(aH, jH, nH):
     """exact-rational reference: the root in (0,1) of n a (1-x)^2 = J x, 60 digits"""
     C = Fraction(jH) / (Fraction(nH) * Fraction(aH))
+    if C < Fraction(1, 10 ** 32):
+        return 1.0                      # 1 - sqrt(C) rounds to 1
     u = 1 + C / 2
     ud = decimal.Decimal(u.numerator) / decimal.Decimal(u.denominator)
     return float(1 / (ud + (ud * ud - 1).sqrt()))
 
 
 H_RTOL = 1e-3      # relative deviation from the exact root that we still call "solves the balance equation"
+
+
+def h_min_flux():
+    """compute_ionization_state_hydrogen is only reached from calculate_ionization_state; with the D6 repair that caller
+    requires jH >= 1e-20, so weaker positive fluxes are outside the function's reachable domain"""
+    return 0.0 if PINNED[0] == "1" else 1e-20
 
 
 def oracle_H(c, out):
@@ -311,12 +319,14 @@ def oracle_H(c, out):
         if all(math.isfinite(v) and v >= 0 for v in c):
             return "range", "hydrogen neutral fraction %r not in [0,1] for alphaH=%r jH=%r nH=%r" % (r, aH, jH, nH)
         return None
-    if all(math.isfinite(v) and v > 0 for v in c) and 1e-300 < jH / (nH * aH) < 1e300:
+    if all(math.isfinite(v) and v > 0 for v in c) and jH >= h_min_flux() and nH * aH > 1e-300:
         ref = h_exact(aH, jH, nH)
         refc = max(ref, 1e-14)
         if abs(r - refc) > H_RTOL * refc:
-            return "balance", ("hydrogen-only neutral fraction %r deviates from the root %r of n*alpha*(1-x)^2 = J*x by a factor %.3g "
-                               "(alphaH=%r jH=%r nH=%r, J/(n alpha)=%.3g)" % (r, ref, r / ref, aH, jH, nH, jH / (nH * aH)))
+            kind = "denormal" if jH < 1e-300 else "balance"
+            return kind, ("hydrogen-only neutral fraction %r deviates from the root %r of n*alpha*(1-x)^2 = J*x by a factor %.3g "
+                          "(alphaH=%r jH=%r nH=%r, J/(n alpha)=%.3g)%s" % (r, ref, r / ref, aH, jH, nH, jH / (nH * aH),
+                           ": 0.5*jH underflows to 0, aa = 0, bb = inf, the result NaN is turned into the floor by std::max" if kind == "denormal" else ""))
     return None
 
 
@@ -380,7 +390,7 @@ def build(ck):
     ok1, log1 = vf.coq_extract("C06", d)
     ok2, log2 = (False, "") if not ok1 else vf.ocaml_build(d, ["c06_model"], os.path.join(vf.VERIF, "ocaml/c06_driver.ml"), "model", floats=True)
     ok3, log3 = vf.cxx_build(os.path.join(vf.VERIF, "harness/c06/ionization_harness.cpp"), os.path.join(d, "impl"),
-                             extra=["-fno-builtin", "-ffp-contract=off"], libs=True)
+                             extra=["-fno-builtin", "-ffp-contract=off", "-Wl,--no-as-needed", "-lmpi_cxx", "-lmpi"], libs=False)
     if not ok3:
         ck.breaks.append("harness does not compile against IonizationStateCalculator.cpp / TemperatureCalculator.cpp:\n" + log3[-2000:])
     if not (ok1 and ok2):
@@ -445,7 +455,7 @@ def run(ck):
     # monotonicity of the hydrogen-only function on the ladders (same alphaH, nH; jH increasing)
     lad = {}
     for idx, ((k, c), o) in enumerate(zip(cases, out_i)):
-        if k == "H" and all(math.isfinite(v) and v > 0 for v in c):
+        if k == "H" and all(math.isfinite(v) and v > 0 for v in c) and c[1] >= max(h_min_flux(), 1e-300):
             lad.setdefault((c[0], c[2]), []).append((c[1], un(o.split()[1]), idx))
     nmono = 0
     for (aH, nH), pts in lad.items():
@@ -455,8 +465,8 @@ def run(ck):
         for (j1, x1, i1), (j2, x2, i2) in zip(pts, pts[1:]):
             nmono += 1
             if j1 < j2 and x2 > x1 * (1.0 + 1e-9):
-                fails.setdefault(("H", "balance"), []).append((i2, "hydrogen-only neutral fraction is not monotone in the radiation field: alphaH=%r nH=%r: "
-                                                               "jH=%r -> %r but jH=%r -> %r (J/(n alpha) = %.3g)" % (aH, nH, j1, x1, j2, x2, j2 / (nH * aH))))
+                fails.setdefault(("H", "monotone"), []).append((i2, "hydrogen-only neutral fraction is not monotone in the radiation field: alphaH=%r nH=%r: "
+                                                               "jH=%r -> %r but jH=%r -> %r (J/(n alpha) = %.3g)" % (aH, nH, j1, x1, j2, x2, j2 / (nH * aH)), i1))
     cov["h_only_monotone_pairs_checked"] = nmono
     # exploration statistics of the H/He sweep (real code)
     sw_out = out_i[sweep_lo:sweep_lo + len(sweep)]
@@ -505,19 +515,41 @@ def run(ck):
         ck.breaks.append("correspondence C06 model <-> real code, %d of the %s cases differ; first: input=%s impl=%r model=%r tag=%r"
                          % (len(idxs), k, lines[i0], out_i[i0], out_m[i0], tags[i0]))
     # --- report violations ---------------------------------------------------------------------------------
-    for (k, kind), lst in sorted(fails.items()):
-        if kind == "balance":      # show the most ordinary failing input: smallest J/(n alpha)
+    # a failing input on which the model AGREES with the real code is a defect of the code that the model reproduces
+    # (stable key, model_agrees=True); one on which they differ is the concrete input for a broken correspondence.
+    mis_all = set(i for v in mism.values() for i in v)
+    explained = False
+    groups = {}
+    for (k, kind), lst in fails.items():
+        for e in lst:
+            agrees = (e[0] < len(out_m) and e[0] not in mis_all) if okm else None
+            groups.setdefault((k, kind, agrees), []).append(e)
+    for (k, kind, agrees), lst in sorted(groups.items(), key=lambda kv: (kv[0][0], kv[0][1], str(kv[0][2]))):
+        if kind in ("balance", "denormal"):      # show the most ordinary failing input: smallest J/(n alpha)
             lst = sorted(lst, key=lambda e: cases[e[0]][1][1] / (cases[e[0]][1][2] * cases[e[0]][1][0]))
-        idx, text = lst[0]
-        key = {"kind": {"weak_field_nan": "weak_field_nan", "balance": "h_only_cancellation"}.get(kind, k + "_" + kind)}
-        rp = {"line": lines[idx], "impl_out": out_i[idx], "failing_clause": text, "count_in_run": len(lst)}
-        if kind == "balance":
+        idx, text = lst[0][0], lst[0][1]
+        if agrees is False:
+            explained = True
+        key = {"kind": {"weak_field_nan": "weak_field_nan", "balance": "h_only_cancellation", "monotone": "h_only_cancellation",
+                        "denormal": "h_only_denormal_flux"}.get(kind, k + "_" + kind),
+               "model_agrees": agrees}
+        rp = {"line": lines[idx], "impl_out": out_i[idx], "model_out": out_m[idx] if idx < len(out_m) else None,
+              "failing_clause": text, "count_in_run": len(lst)}
+        if kind == "monotone":
+            rp["previous_line"] = lines[lst[0][2]]
+        if kind in ("balance", "denormal"):
             aH, jH, nH = cases[idx][1]
             rp.update({"alphaH": aH, "jH": jH, "nH": nH, "exact_root": h_exact(aH, jH, nH), "returned": un(out_i[idx].split()[1])})
+            wi, wt = max([e[:2] for e in lst], key=lambda e: abs(math.log(max(un(out_i[e[0]].split()[1]), 1e-300) / max(h_exact(*cases[e[0]][1]), 1e-14))))
+            rp["worst_in_run"] = {"line": lines[wi], "what": wt}
         if kind == "weak_field_nan":
             c = cases[idx][1]
             rp.update({"jfac": c[0], "mean_intensity": c[2], "number_density": c[5], "temperature": c[6], "AHe": c[7]})
-        ck.violation("C06 fails on the real code (%d inputs of this run, first shown): %s" % (len(lst), text), rp, key=key)
+        ck.violation("C06 fails on the real code (%d inputs of this run, first shown%s): %s"
+                     % (len(lst), "" if agrees else "; the model does NOT reproduce this value", text), rp, key=key)
+    if ck.breaks and not explained:
+        ck.violation("broken without a failing input: " + " || ".join(b[:1500] for b in ck.breaks), {"no_longer_checks": ck.breaks},
+                     key={"kind": "break"}, no_input=True)
     cov["evaluations"] = n_cmp
     cov["distinct_nontrivial"] = len(sigs)
     cov["rule"] = ("one evaluation = one call of a real function (H: compute_ionization_state_hydrogen, E: compute_ionization_states_hydrogen_helium, "
@@ -541,7 +573,6 @@ def run(ck):
         "theorems over R idealise rounding; the binary64 deviation of the hydrogen-only function is measured against an exact rational root (tolerance %g)" % H_RTOL,
         "never-aborts (H/He loop <= 20 iterations) is explored by sweep, not proved",
     ]
-    ck.resolve_breaks_without_input()
 
 
 def replay(ck, rp):
@@ -563,5 +594,13 @@ def replay(ck, rp):
     else:
         c = tuple(f[:7]) + (f[7:13], f[13], f[14], f[15:29]) + tuple(f[29:])
     w = ORACLES[k](c, out[0]) if out else ("crash", "harness died")
+    prev = rp["replay"].get("previous_line")
+    if prev and out and not w:
+        rc2, out2 = vf.run_lines([os.path.join(d, "impl")], prev + "\n")
+        x1, x2 = un(out2[0].split()[1]), un(out[0].split()[1])
+        j1, j2 = un(prev.split()[2]), un(line.split()[2])
+        print(out2[0])
+        if j1 < j2 and x2 > x1 * (1.0 + 1e-9):
+            w = ("monotone", "not monotone: jH=%r -> %r but jH=%r -> %r" % (j1, x1, j2, x2))
     print("REPLAY:", w[1] if w else "property holds on this input")
     return 1 if w else 0
